@@ -181,7 +181,10 @@ struct Exporter {
       o["k"] = "MCall";
       const CXXMethodDecl *MD = MC->getMethodDecl();
       const Expr *Obj = MC->getImplicitObjectArgument();
-      if (MD && MD->isVirtual() && Obj) {  // devirtualise to the static type's final overrider
+      bool Qualified = false;               // X::f() names X's own f: no dynamic dispatch
+      if (auto *ME = dyn_cast<MemberExpr>(MC->getCallee()->IgnoreParens())) Qualified = ME->hasQualifier();
+      if (Qualified) o["qualified"] = true;
+      if (MD && MD->isVirtual() && Obj && !Qualified) {  // devirtualise to the static type's final overrider
         QualType OT = Obj->IgnoreParenImpCasts()->getType();
         if (OT->isPointerType()) OT = OT->getPointeeType();
         if (auto *RD = OT->getAsCXXRecordDecl())
